@@ -307,6 +307,9 @@ func (s *server) ModifyColumnFamilies(ctx context.Context, req *btapb.ModifyColu
 			cfs[mod.Id] = &btapb.ColumnFamily{
 				GcRule: create.GcRule,
 			}
+			// A new family starts empty, even if cells of an earlier family of that name are still stored
+			// (left behind by an interrupted drop).
+			dropped[mod.Id] = true
 		} else if mod.GetDrop() {
 			if _, ok := cfs[mod.Id]; !ok {
 				return nil, fmt.Errorf("can't delete unknown family %q", mod.Id)
@@ -330,8 +333,7 @@ func (s *server) ModifyColumnFamilies(ctx context.Context, req *btapb.ModifyColu
 	s.storage.SetTableMeta(tbl.def)
 
 	if len(dropped) > 0 {
-		// Purge all data of the dropped column families (also when a family of that name was created again by the
-		// same request). Rows that are left without any cell are removed (after the iteration, which must not
+		// Purge all data of the dropped (and of the newly created) column families. Rows that are left without any cell are removed (after the iteration, which must not
 		// see deletions).
 		var emptied []keyType
 		tbl.rows.Ascend(func(r *btpb.Row) bool {
@@ -568,6 +570,9 @@ func (s *server) ReadRows(req *btpb.ReadRowsRequest, stream btpb.Bigtable_ReadRo
 				return false
 			}
 
+			// Cells of families that are not part of the table (left behind by an interrupted family drop) are not
+			// data of the table: remove them before the filter looks at the row.
+			scrubRow(r, tbl.cols())
 			if len(r.Families) == 0 {
 				return true
 			}
@@ -1445,6 +1450,8 @@ func (t *table) validTimestamp(ts int64) bool {
 func (t *table) getOrCreateRow(key keyType) *btpb.Row {
 	r := t.rows.Get(key)
 	if r != nil {
+		// See ReadRows: cells of families that are not part of the table are not data of the table.
+		r, _ = scrubRow(r, t.cols())
 		return r
 	}
 	return &btpb.Row{Key: key}
